@@ -90,6 +90,9 @@ func runCase(dir string, caseNo int, line string) (res string) {
 	go func() { done <- svc.DoListen(ctx, 0) }()
 	clients := make([]net.Conn, len(conns))
 	for i := range conns {
+		if conns[i].mode == "late" {
+			continue // dialled while the other connections' handlers are already running
+		}
 		c, err := net.Dial("unix", path)
 		if err != nil {
 			return "X dial " + err.Error()
@@ -107,6 +110,22 @@ func runCase(dir string, caseNo int, line string) (res string) {
 		wg.Add(1)
 		go func(i int) {
 			defer wg.Done()
+			if conns[i].mode == "late" {
+				time.Sleep(60 * time.Millisecond)
+				c, err := net.Dial("unix", path)
+				if err != nil {
+					outs[i] = "TIMEOUT-dial"
+					return
+				}
+				clients[i] = c
+				select {
+				case <-tl.Accepted:
+				case <-time.After(8 * time.Second):
+					outs[i] = "TIMEOUT-accept"
+					c.Close()
+					return
+				}
+			}
 			c := clients[i]
 			for _, ch := range conns[i].chunks {
 				if _, err := c.Write(ch); err != nil {
@@ -114,6 +133,9 @@ func runCase(dir string, caseNo int, line string) (res string) {
 				}
 				if conns[i].mode == "pause" {
 					time.Sleep(300 * time.Microsecond)
+				}
+				if conns[i].mode == "slow" {
+					time.Sleep(40 * time.Millisecond)
 				}
 			}
 			if conns[i].mode == "abort" {
@@ -182,8 +204,23 @@ func main() {
 	w := bufio.NewWriterSize(os.Stdout, 1<<20)
 	defer w.Flush()
 	n := 0
+	hangs := 0
 	for sc.Scan() {
 		n++
-		fmt.Fprintln(w, runCase(dir, n, sc.Text()))
+		// a case that never comes back (a lock that is never released, a goroutine that is never joined) must not hang the check
+		line := sc.Text()
+		if hangs >= 3 {
+			fmt.Fprintln(w, "HANG skipped: three earlier cases of this run did not finish")
+			continue
+		}
+		resc := make(chan string, 1)
+		go func() { resc <- runCase(dir, n, line) }()
+		select {
+		case r := <-resc:
+			fmt.Fprintln(w, r)
+		case <-time.After(60 * time.Second):
+			hangs++
+			fmt.Fprintln(w, "HANG the case did not finish within 60 s")
+		}
 	}
 }
